@@ -19,6 +19,7 @@ import (
 	"reflect"
 	"sort"
 	"strings"
+	"testing/fstest"
 	"time"
 
 	"github.com/traefik/yaegi/interp"
@@ -49,6 +50,8 @@ type job struct {
 	GoPath     string      `json:"gopath,omitempty"`
 	TimeoutMs  int         `json:"timeout_ms,omitempty"`
 	Names      [][2]string `json:"names,omitempty"` // bind: (pkg, name) to look at
+	Opts       *optsT      `json:"opts,omitempty"`  // the Options value itself (nil / empty slices, nil / buffer / file streams)
+	Call       string      `json:"call,omitempty"`  // an expression evaluated after Src; its string value is reported
 }
 
 type jobResult struct {
@@ -63,6 +66,13 @@ type jobResult struct {
 	HostAfter  []string          `json:"host_after,omitempty"`
 	Binds      map[string]string `json:"binds,omitempty"`
 	Keys       []string          `json:"keys,omitempty"`
+	Value      string            `json:"value,omitempty"`     // value of job.Call
+	HostArgs   []string          `json:"host_args,omitempty"` // the child's own os.Args
+}
+
+// childMapFS is the SourcecodeFilesystem of the cases that set one.
+var childMapFS = fstest.MapFS{
+	"mapgp/src/c13fs/x.go": &fstest.MapFile{Data: []byte("package c13fs\n\nfunc Which() string { return \"mapfs\" }\n")},
 }
 
 const marker = "\x01C13JOB "
@@ -122,6 +132,17 @@ func newInterp(j job, opt interp.Options) (*interp.Interpreter, error) {
 	opt.Args = j.Args
 	opt.Unrestricted = j.Cfg.Unrestricted
 	opt.GoPath = j.GoPath
+	if j.Opts != nil {
+		// the value under test, slices exactly as given (nil stays nil, empty stays empty)
+		opt.Args, opt.Env, opt.BuildTags = j.Opts.Args, j.Opts.Env, j.Opts.Tags
+		opt.GoPath = j.Opts.GoPath
+		if j.Opts.GoPath == "tree" {
+			opt.GoPath = j.GoPath
+		}
+		if j.Opts.FS {
+			opt.SourcecodeFilesystem = childMapFS
+		}
+	}
 	if j.Cfg.SpecialStdio {
 		os.Setenv("YAEGI_SPECIAL_STDIO", "1")
 		defer os.Unsetenv("YAEGI_SPECIAL_STDIO")
@@ -161,6 +182,18 @@ type streams struct {
 func makeStreams(j job) *streams {
 	st := &streams{}
 	st.opt = interp.Options{Stdout: &st.so, Stderr: &st.se, Stdin: strings.NewReader(j.Stdin)}
+	if j.Opts != nil {
+		if j.Opts.Stdout == "nil" {
+			st.opt.Stdout = nil
+		}
+		if j.Opts.Stderr == "nil" {
+			st.opt.Stderr = nil
+		}
+		if j.Opts.Stdin == "nil" {
+			st.opt.Stdin = nil
+		}
+		j.Cfg.StdoutFile, j.Cfg.StderrFile, j.Cfg.StdinFile = j.Opts.Stdout == "file", j.Opts.Stderr == "file", j.Opts.Stdin == "file"
+	}
 	tmp := func() *os.File {
 		f, err := os.CreateTemp("", "c13-stream-")
 		if err != nil {
@@ -203,6 +236,9 @@ func runScript(j job) (r jobResult) {
 	opt := st.opt
 	so, se, fo, fe := &st.so, &st.se, st.fo, st.fe
 	r.HostBefore = sortedEnviron()
+	if j.Opts != nil {
+		r.HostArgs = append([]string{}, os.Args...)
+	}
 	timeout := time.Duration(j.TimeoutMs) * time.Millisecond
 	if timeout == 0 {
 		timeout = 10 * time.Second
@@ -229,6 +265,20 @@ func runScript(j job) (r jobResult) {
 				r.Err = "error with empty message"
 			}
 			_, r.Panic = err.(interp.Panic)
+			return
+		}
+		if j.Call != "" {
+			v, err := i.EvalWithContext(ctx, j.Call)
+			if err != nil {
+				r.Err = "call: " + err.Error()
+				_, r.Panic = err.(interp.Panic)
+				return
+			}
+			if v.IsValid() && v.Kind() == reflect.String {
+				r.Value = v.String()
+			} else {
+				r.Err = "call: not a string"
+			}
 		}
 	}()
 	select {
